@@ -175,6 +175,21 @@ impl TrainerConfig {
         })
     }
 
+    #[cfg(feature = "verif")]
+    pub(crate) fn verif_rewrite_many(
+        rewrite_def: &str,
+        section: &str,
+        feature_lists: &[Vec<String>],
+    ) -> Result<Vec<Option<Vec<String>>>> {
+        let (u, l, r) = Self::parse_rewrite_config(rewrite_def.as_bytes())?;
+        let rewriter = match section {
+            "unigram" => u,
+            "left" => l,
+            _ => r,
+        };
+        Ok(feature_lists.iter().map(|f| rewriter.rewrite(f)).collect())
+    }
+
     /// Loads a training configuration from readers.
     ///
     /// # Arguments
